@@ -402,3 +402,211 @@ def history_badness(outc, notes):
     else:
         bad['C09'] = (not_(and_(explicit is None, gt(g.count, 65535))), 'build failed although an explicit length is in force or the payload fits in 65535 bytes')
     return bad
+
+
+# ------------------------------------------------------------------ C20: every WriteToHeader impl, directly (returned count, appended bytes, to_bytes, refusal)
+TYPE_CODES = {'ALPN': 0x01, 'Authority': 0x02, 'CRC32C': 0x03, 'NoOp': 0x04, 'UniqueId': 0x05, 'SSL': 0x20, 'SSLVersion': 0x21, 'SSLCommonName': 0x22,
+              'SSLCipher': 0x23, 'SSLSignatureAlgorithm': 0x24, 'SSLKeyAlgorithm': 0x25, 'NetworkNamespace': 0x30}
+INTS = ['u8', 'u16', 'u32', 'u64', 'u128', 'usize', 'i8', 'i16', 'i32', 'i64', 'i128', 'isize']
+WT = 'v2::builder::WriteToHeader'
+LIMIT = 65535 + 16
+
+
+def mk_struct(prog, rel, name, ty, vals):
+    import props_v2
+    order = props_v2.struct_order(prog, rel, name)
+    st = Struct(ty, {})
+    st.fields = {i: vals[n] for i, n in enumerate(order)}
+    st.names = {n: i for i, n in enumerate(order)}
+    return st
+
+
+def sym_slice(e, name):
+    P = z3.Function('q_' + name, z3.IntSort(), z3.IntSort())
+    N = z3.Int('qn_' + name)
+    e.assume(z3.And(N >= 0, N <= BIGLEN))
+    return Str(Buf('q_' + name, fn=P, length=N), 0, N, is_str=False), N
+
+
+def value_cases(prog):
+    """[(label, maker)]: maker(e) -> (self type string, value to pass as &self (already a reference where needed),
+    expected encoding as list of bytes/slices, oversize formula, fixed-size part in bytes)"""
+    cases = []
+    for t in INTS:
+        def mk(e, t=t):
+            lo, hi = int_range(t)
+            x = z3.Int('x_' + t)
+            e.assume(z3.And(x >= lo, x <= hi))
+            n = INT_BITS[t] // 8
+            u = z3.If(x < 0, x + 2 ** INT_BITS[t], x) if lo < 0 else x
+            return t, Ref(Cell(x)), [(Z(u) / (256 ** i)) % 256 for i in range(n - 1, -1, -1)], False, n
+        cases.append(('int_' + t, mk))
+
+    def mk_type(e):
+        names = sorted(TYPE_CODES)
+        k = e.choose(len(names))
+        e.notes.append(('info', 'variant=' + names[k]))
+        return 'v2::model::Type', Ref(Cell(Enum('v2::model::Type', names[k], []))), [TYPE_CODES[names[k]]], False, 1
+    cases.append(('type', mk_type))
+
+    def mk_addr(e):
+        k = e.choose(4)
+        e.notes.append(('info', 'family=%d' % k))
+        if k == 0:
+            return 'v2::model::Addresses', Ref(Cell(Enum('v2::model::Addresses', 'Unspecified', []))), [], False, 0
+        if k in (1, 2):
+            n = 4 if k == 1 else 16
+            octs = [z3.Int('ao%d_%d' % (k, i)) for i in range(2 * n + 4)]
+            e.assume(z3.And([z3.And(o >= 0, o <= 255) for o in octs]))
+            vals = {'source_address': Opaque('ip', fam=4 if k == 1 else 6, val=None, octs=octs[0:n]), 'destination_address': Opaque('ip', fam=4 if k == 1 else 6, val=None, octs=octs[n:2 * n]),
+                    'source_port': octs[2 * n] * 256 + octs[2 * n + 1], 'destination_port': octs[2 * n + 2] * 256 + octs[2 * n + 3]}
+            nm = 'IPv4' if k == 1 else 'IPv6'
+            ip = mk_struct(prog, 'src/ip.rs', nm, 'ip::' + nm, vals)
+            return 'v2::model::Addresses', Ref(Cell(Enum('v2::model::Addresses', nm, [ip]))), list(octs), False, 2 * n + 4
+        sv = [z3.Int('ux%d' % i) for i in range(6)]
+        e.assume(z3.And([z3.And(o >= 0, o <= 255) for o in sv]))
+        s, d = [0x41] * 108, [0x42] * 108
+        s[0], s[53], s[107] = sv[0], sv[1], sv[2]
+        d[0], d[54], d[107] = sv[3], sv[4], sv[5]
+        ux = mk_struct(prog, 'src/v2/model.rs', 'Unix', 'v2::model::Unix', {'source': Tuple(list(s)), 'destination': Tuple(list(d))})
+        return 'v2::model::Addresses', Ref(Cell(Enum('v2::model::Addresses', 'Unix', [ux]))), s + d, False, 216
+    cases.append(('addresses', mk_addr))
+
+    def mk_tlv(e, form):
+        s, N = sym_slice(e, 'tlv')
+        empty = e.branch(N == 0)
+        enc_val = [] if empty else [s]
+        if form == 'tlv':
+            t = z3.Int('tk')
+            e.assume(z3.And(t >= 0, t <= 255))
+            v = mk_struct(prog, 'src/v2/model.rs', 'TypeLengthValue', 'v2::model::TypeLengthValue', {'kind': t, 'value': Enum(models.COW, 'Borrowed', [s])})
+            return "v2::model::TypeLengthValue<'_>", Ref(Cell(v)), [t, N / 256, N % 256] + enc_val, N > 65535, 3
+        if form == 'pair_u8':
+            t = z3.Int('tk')
+            e.assume(z3.And(t >= 0, t <= 255))
+            return '(u8, &[u8])', Ref(Cell(Tuple([t, s]))), [t, N / 256, N % 256] + enc_val, N > 65535, 3
+        names = sorted(TYPE_CODES)
+        k = e.choose(len(names))
+        e.notes.append(('info', 'variant=' + names[k]))
+        return '(v2::model::Type, &[u8])', Ref(Cell(Tuple([Enum('v2::model::Type', names[k], []), s]))), [TYPE_CODES[names[k]], N / 256, N % 256] + enc_val, N > 65535, 3
+    for form in ('tlv', 'pair_u8', 'pair_type'):
+        cases.append((form, lambda e, form=form: mk_tlv(e, form)))
+
+    def mk_section(e):
+        s, N = sym_slice(e, 'sec')
+        empty = e.branch(N == 0)
+        o = z3.Int('sec_off')
+        e.assume(z3.And(o >= 0, o <= N))
+        v = mk_struct(prog, 'src/v2/model.rs', 'TypeLengthValues', 'v2::model::TypeLengthValues', {'bytes': s, 'offset': o})
+        return "v2::model::TypeLengthValues<'_>", Ref(Cell(v)), ([] if empty else [s]), False, 0
+    cases.append(('section', mk_section))
+
+    def mk_slice(e, byref):
+        s, N = sym_slice(e, 'sl')
+        empty = e.branch(N == 0)
+        if byref:
+            return '&[u8]', Ref(Cell(s)), ([] if empty else [s]), N > 65535, 0
+        return '[u8]', s, ([] if empty else [s]), N > 65535, 0
+    cases.append(('slice', lambda e: mk_slice(e, False)))
+    cases.append(('ref_slice', lambda e: mk_slice(e, True)))
+    return cases
+
+
+def c20_write_to(prog, label='c20_write_to'):
+    """every WriteToHeader impl on a writer holding an arbitrary prefix of P <= 65551 bytes (symbolic length and
+    content): Ok(n) => n = |encoding| and contents = prefix ++ encoding; oversize value => Err and nothing written;
+    a value that fits with the writer still below its limit after the fixed-size part => not Err; to_bytes = encoding."""
+    import props_v2
+    recs = []
+    npaths = 0
+    for lab, maker in value_cases(prog):
+        ex = v1sum.new_exec(prog, [], 0)
+        ex.suffix = ''
+        ex.hooks = [models_v2.hook if False else None]
+        import models_v2 as _m2
+        ex.hooks = [models_b.hook, _m2.hook]
+
+        def run(e):
+            ty, ref, enc, over, fixed = maker(e)
+            pre, P = sym_slice(e, 'pre')
+            e.assume(P <= LIMIT)
+            pempty = e.branch(P == 0)
+            seg = Seg([] if pempty else [('s', pre)])
+            w = mk_struct(prog, 'src/v2/builder.rs', 'Writer', 'v2::builder::Writer', {'bytes': seg})
+            wc = Cell(w)
+            r = models.dispatch(e, '<%s as %s>::write_to' % (ty, WT), [ref, Ref(wc)], {'generics': {}})
+            tb = e.call_fn('v2::builder::WriteToHeader::to_bytes', [ref], {'Self': ty})
+            e.notes.append(('w', ty, enc, over, fixed, pre, P, pempty, wc.v.get('bytes'), r, tb))
+            return r
+        res = explore(ex, run, base_axioms=[])
+        for i, (sc, items, out, notes) in enumerate(res):
+            npaths += 1
+            pc = [c for _, c in items]
+            rec_label = '%s:%s#%d' % (label, lab, i)
+            if out[0] == 'panic':
+                bad, desc = z3.BoolVal(True), 'panic: %s' % out[1]
+            else:
+                _, ty, enc, over, fixed, pre, P, pempty, after, r, tb = [n for n in notes if n[0] == 'w'][0]
+                exp = Seg([] if pempty else [('s', pre)])
+                encseg = Seg()
+                total = 0
+                for x in enc:
+                    if isinstance(x, Str):
+                        exp.push_slice(x)
+                        encseg.push_slice(x)
+                        total = add(total, x.len())
+                    else:
+                        exp.push_bytes([x])
+                        encseg.push_bytes([x])
+                        total = add(total, 1)
+                overf = Z(over) if not isinstance(over, bool) else z3.BoolVal(over)
+                if r.variant == 'Ok':
+                    good = and_(not_(overf) if not isinstance(over, bool) else (not over), eq(r.fields[0], total), seg_equal(after.norm(), exp.norm()))
+                    desc = 'write_to returned Ok'
+                else:
+                    # refusal of an oversize value must leave the writer untouched; any other failure is only legitimate
+                    # when the writer is no longer below its limit after the fixed-size part of the encoding
+                    untouched = seg_equal(after.norm(), Seg([] if pempty else [('s', pre)]).norm())
+                    good = or_(and_(overf, untouched), and_(not_(overf), gt(add(P, fixed), LIMIT)))
+                    desc = 'write_to returned Err'
+                # to_bytes: the same encoding from an empty writer (oversize => Err)
+                if tb.variant == 'Ok':
+                    tgood = and_(not_(overf), seg_equal(tb.fields[0].norm(), encseg.norm()))
+                else:
+                    tgood = overf
+                bad = not_(and_(good, tgood))
+                bad = z3.BoolVal(bad) if isinstance(bad, bool) else bad
+                desc += ' / to_bytes %s' % tb.variant
+            s = z3.Solver()
+            s.set('timeout', 120000)
+            for c in pc:
+                s.add(c)
+            s.add(bad)
+            t0 = time.time()
+            rr = s.check()
+            rec = {'label': rec_label, 'task': [label, lab, i], 'solver_s': time.time() - t0, 'status': 'unsat'}
+            if rr == z3.sat:
+                m = s.model()
+                vals = {str(d): str(m[d]) for d in m.decls() if d.arity() == 0}
+                rec['status'] = 'sat'
+                vals2 = dict(vals)
+                for nn in notes:
+                    if nn[0] == 'info':
+                        kk, vv = nn[1].split('=')
+                        vals2[kk] = vv
+                # sizes the native replay can allocate
+                s.push()
+                for nm in ('qn_pre', 'qn_tlv', 'qn_sec', 'qn_sl'):
+                    s.add(z3.Int(nm) <= 200000)
+                if s.check() == z3.sat:
+                    m = s.model()
+                    for d in m.decls():
+                        if d.arity() == 0:
+                            vals2[str(d)] = str(m[d])
+                s.pop()
+                rec['cex'] = {'runs': [['v2_write_to', ('%s;%s' % (lab, ';'.join('%s=%s' % kv for kv in sorted(vals2.items()) if not kv[0].startswith('k!')))).encode().hex()]],
+                              'violated_if': 'write_to', 'summary': 'C20: %s impl (%s): %s with %s' % (lab, ty if out[0] != 'panic' else '', desc, {k: v for k, v in vals.items() if k.startswith(('qn_', 'x_', 'sec_'))})}
+            elif rr != z3.unsat:
+                rec['status'] = 'unknown'
+            recs.append(rec)
+    return npaths, 0, recs
